@@ -46,6 +46,7 @@ func fullProfile0(t *tape.Tape, flagCount uint32) app.Profile {
 		ManySyms: t.Chance(1, 25),
 		CatchLoad: t.Chance(1, 3),
 		Refresh: t.Chance(1, 3),
+		FallMove: t.Chance(1, 4),
 	}
 }
 
